@@ -138,7 +138,11 @@ pub fn scenario(idx: usize, seed: u64, reqs_per_task: usize) -> ScenarioResult {
     // allow-list and near misses
     let list_len = *[0usize, 1, 3, if super::miri() { 20 } else { 1_000 }].get((idx / 2) % 4).unwrap();
     let allowed: Vec<PeerId> = (0..list_len).map(|_| gen_peer(&mut rng)).collect();
-    let allowed_set: HashSet<PeerId> = allowed.iter().copied().collect();
+    // stacked: two authorization layers of the same authorizer type with different policies (a
+    // router-level list around a route-level one); the request must pass both
+    let stacked = use_allowlist && idx % 8 == 6;
+    let inner_allowed: Vec<PeerId> = allowed.iter().copied().step_by(2).collect();
+    let allowed_set: HashSet<PeerId> = if stacked { inner_allowed.iter().copied().collect() } else { allowed.iter().copied().collect() };
     let mut senders: Vec<Option<PeerId>> = vec![None];
     for p in allowed.iter().take(20) {
         senders.push(Some(*p));
@@ -165,9 +169,15 @@ pub fn scenario(idx: usize, seed: u64, reqs_per_task: usize) -> ScenarioResult {
     // the authorizer or the layer share between clones is shared across the 4 worker threads
     enum Built {
         Allow(anemo_tower::auth::RequireAuthorization<Inner, LoggedAllowed>),
+        Stacked(anemo_tower::auth::RequireAuthorization<anemo_tower::auth::RequireAuthorization<Inner, LoggedAllowed>, LoggedAllowed>),
         Script(anemo_tower::auth::RequireAuthorization<Inner, Scripted>),
     }
-    let built = if use_allowlist {
+    let built = if stacked {
+        let inner_auth = LoggedAllowed { inner: AllowedPeers::new(inner_allowed.clone()), logs: logs.clone() };
+        let outer_auth = LoggedAllowed { inner: AllowedPeers::new(allowed.clone()), logs: logs.clone() };
+        let inner_layered = RequireAuthorizationLayer::new(inner_auth).layer(Inner(logs.clone()));
+        Built::Stacked(RequireAuthorizationLayer::new(outer_auth).layer(inner_layered))
+    } else if use_allowlist {
         let auth = LoggedAllowed { inner: AllowedPeers::new(allowed.clone()), logs: logs.clone() };
         Built::Allow(RequireAuthorizationLayer::new(auth).layer(Inner(logs.clone())))
     } else {
@@ -217,6 +227,7 @@ pub fn scenario(idx: usize, seed: u64, reqs_per_task: usize) -> ScenarioResult {
             }
             match &built {
                 Built::Allow(svc) => drive!(svc),
+                Built::Stacked(svc) => drive!(svc),
                 Built::Script(svc) => drive!(svc),
             }
         }
@@ -297,7 +308,7 @@ pub fn scenario(idx: usize, seed: u64, reqs_per_task: usize) -> ScenarioResult {
         }
     }
     let _ = StatusCode::Success.into_response();
-    let sample = json!({"scenario": idx, "seed": seed, "authorizer": if use_allowlist { format!("AllowedPeers({list_len})") } else { format!("scripted kind {kind}") },
+    let sample = json!({"scenario": idx, "seed": seed, "authorizer": if stacked { format!("AllowedPeers({list_len}) around AllowedPeers({})", inner_allowed.len()) } else if use_allowlist { format!("AllowedPeers({list_len})") } else { format!("scripted kind {kind}") },
         "tasks": ntasks, "clones_per_task": nclones, "requests": sent.len(), "accepted": n_acc, "refused": n_ref,
         "sender_absent": n_absent, "sender_listed": n_listed, "sender_unlisted": n_unlisted});
     let res = if !problems.is_empty() {
@@ -305,7 +316,7 @@ pub fn scenario(idx: usize, seed: u64, reqs_per_task: usize) -> ScenarioResult {
         w["problems"] = json!(problems);
         ScenarioResult::violated(problems[0].clone(), w)
     } else {
-        ScenarioResult::held(format!("auth={} list={list_len} clones={} acc={} ref={}", if use_allowlist { "allowlist" } else { "scripted" }, match nclones { 1 => "1", 2..=8 => "2-8", _ => "9+" }, n_acc > 0, n_ref > 0))
+        ScenarioResult::held(format!("auth={}{} list={list_len} clones={} acc={} ref={}", if use_allowlist { "allowlist" } else { "scripted" }, if stacked { "-stacked" } else { "" }, match nclones { 1 => "1", 2..=8 => "2-8", _ => "9+" }, n_acc > 0, n_ref > 0))
             .with_sample(sample)
     };
     res.count("requests", sent.len() as u64)
